@@ -20,7 +20,7 @@ thread_local! {
     static AMBIENT_READS: RefCell<Vec<ReadRec>> = const { RefCell::new(Vec::new()) };
 }
 
-const AMBIENT_VALUES: &[&str] = &["UTC", "Europe/Paris", ":Europe/Paris", "localtime", "/usr/share/zoneinfo/UTC", "EST5EDT", " UTC ", "Nonexistent/Zone", "<+03>-3", "", ":", "/etc/localtime", ":/etc/localtime", "posixrules", "right/UTC", "Etc/GMT+5", "CET-1CEST,M3.5.0,M10.5.0/3", "UTC0", " UTC0\n", ":Nonexistent/Zone", "Europe", "/nonexistent/abs"];
+const AMBIENT_VALUES: &[&str] = &["corpus/Asia/Tokyo", "Asia/Tokyo", "UTC", "Europe/Paris", ":Europe/Paris", "localtime", "/usr/share/zoneinfo/UTC", "EST5EDT", " UTC ", "Nonexistent/Zone", "<+03>-3", "", ":", "/etc/localtime", ":/etc/localtime", "posixrules", "right/UTC", "Etc/GMT+5", "CET-1CEST,M3.5.0,M10.5.0/3", "UTC0", " UTC0\n", ":Nonexistent/Zone", "Europe", "/nonexistent/abs"];
 
 /// std::fs::read with a record of what was asked (for the ambient, real-filesystem operations)
 fn ambient_read(path: &str) -> Result<Vec<u8>, Box<dyn std::error::Error + Send + Sync + 'static>> {
@@ -949,6 +949,7 @@ pub fn run_op<'c>(ctx: &'c Ctx<'c>, me: usize, st: &mut ActorState<'c>, opi: usi
                         match (&expect, &res) {
                             (Expect::Zone(_), Res::Ok(_)) => probe("decode_generated_ok"),
                             (Expect::CorpusOk, Res::Ok(_)) => probe("decode_corpus_ok"),
+                            (Expect::WellFormed, _) => probe("decode_wellformed_by_model_only"),
                             (Expect::Reject(_), Res::ErrTz(_)) => probe("decode_malformed_refused"),
                             (Expect::Unknown, Res::Ok(_)) => probe("decode_untyped_corruption_accepted"),
                             (Expect::Unknown, Res::ErrTz(_)) => probe("decode_untyped_corruption_refused"),
@@ -1079,8 +1080,9 @@ pub fn run_op<'c>(ctx: &'c Ctx<'c>, me: usize, st: &mut ActorState<'c>, opi: usi
                         (Res::ErrTz(x), Res::ErrTz(y)) => x == y,
                         _ => false,
                     };
-                    let _ = write!(out, "ambient({v:?},{}) default={} explicit={}", local, ra.brief().len(), rb.brief().len());
+                    let _ = write!(out, "ambient({v:?},{}) default={:016x} explicit={:016x}", local, crate::prng::fnv(ra.brief().as_bytes()), crate::prng::fnv(rb.brief().as_bytes()));
                     if !same {
+                        push_violation(armed, "C15.env", "default-settings-differ", format!("TZ {v:?}: TimeZone::{} gives {} but explicit settings with the default directories and std::fs::read give {} (TZ={:?} TZDIR={:?})", if local { "local()" } else { "from_posix_tz" }, ra.brief(), rb.brief(), std::env::var("TZ").ok(), std::env::var("TZDIR").ok()));
                         push_violation(armed, "C20.result_file", "default-settings-differ", format!("TZ {v:?}: TimeZone::{} gives {} but TimeZoneSettings::new(DEFAULT_DIRECTORIES, std::fs::read) gives {}", if local { "local()" } else { "from_posix_tz" }, ra.brief(), rb.brief()));
                     }
                     if default_reads != 0 {
@@ -1180,7 +1182,18 @@ pub fn run_op<'c>(ctx: &'c Ctx<'c>, me: usize, st: &mut ActorState<'c>, opi: usi
         // ---- environment
         Op::SetEnv { key, val } => {
             if env_key_ok(key) && !val.contains('\0') {
-                std::env::set_var(key, val);
+                // "@CORPUS/..." names a real directory of the vendored tree (a decoy zoneinfo tree for TZDIR)
+                let val = match val.strip_prefix("@CORPUS") {
+                    Some(rest) => format!("{}{rest}", std::env::var("TZSIM_CORPUS").unwrap_or_else(|_| "/verif/corpus".into())),
+                    None => val.clone(),
+                };
+                if key == "CWD" {
+                    // pseudo-variable: the process's current working directory
+                    let _ = HOME_DIR.get_or_init(|| std::env::current_dir().unwrap_or_else(|_| "/".into()));
+                    let _ = std::env::set_current_dir(&val);
+                } else {
+                    std::env::set_var(key, &val);
+                }
                 if let Some(w) = lock().as_mut() {
                     w.stats.fault("env_flip");
                     w.ev(0, format!("world setenv {key} {val:?}"));
@@ -1189,7 +1202,7 @@ pub fn run_op<'c>(ctx: &'c Ctx<'c>, me: usize, st: &mut ActorState<'c>, opi: usi
             out.push_str("setenv");
         }
         Op::UnsetEnv { key } => {
-            if env_key_ok(key) {
+            if env_key_ok(key) && key != "CWD" {
                 std::env::remove_var(key);
                 if let Some(w) = lock().as_mut() {
                     w.stats.fault("env_flip");
@@ -1254,7 +1267,7 @@ pub fn run_op<'c>(ctx: &'c Ctx<'c>, me: usize, st: &mut ActorState<'c>, opi: usi
 }
 
 fn env_key_ok(k: &str) -> bool {
-    matches!(k, "TZ" | "TZDIR" | "LANG" | "LC_ALL" | "LC_TIME")
+    matches!(k, "TZ" | "TZDIR" | "LANG" | "LC_ALL" | "LC_TIME" | "CWD")
 }
 
 fn oracle_trim(s: &str) -> String {
@@ -1305,10 +1318,15 @@ fn finish_query(armed: &Armed, op: &Op, q: &QueryOut, retained: &mut Option<(isi
 
 // ------------------------------------------------------------------ whole-scenario execution
 
+static HOME_DIR: std::sync::OnceLock<std::path::PathBuf> = std::sync::OnceLock::new();
+
 fn reset_env() {
     for k in ["TZ", "TZDIR", "LANG", "LC_ALL", "LC_TIME"] {
         std::env::remove_var(k);
     }
+    // the working directory is process-global state too
+    let home = HOME_DIR.get_or_init(|| std::env::current_dir().unwrap_or_else(|_| "/".into()));
+    let _ = std::env::set_current_dir(home);
 }
 
 pub fn execute(sc: &Scenario, corpus: &mut Corpus, armed: Armed, opts: &ExecOpts) -> Outcome {
@@ -1511,6 +1529,28 @@ fn alone_in_process(rec: &OpRec) -> Option<(String, Option<String>)> {
             CLOCK_READS.with(|c| c.borrow_mut().clear());
             let _q = eval_query(&rec.op, zh.as_ref(), toh.as_ref(), buf.as_mut(), rec.clock.unwrap_or(0), &mut out);
             REPLAY_CLOCK.with(|c| c.set(None));
+            Some((out, None))
+        }
+        Op::Construct { kind, args } if kind == "ambient_tz" || kind == "ambient_local" => {
+            // environment and working directory are back at their baseline here: the answer must not move
+            let v = AMBIENT_VALUES[(args.first().copied().unwrap_or(0).unsigned_abs() % AMBIENT_VALUES.len() as u64) as usize];
+            let local = kind == "ambient_local";
+            let a = catch_unwind(AssertUnwindSafe(|| if local { TimeZone::local() } else { TimeZone::from_posix_tz(v) }));
+            let b = catch_unwind(AssertUnwindSafe(|| {
+                let s = TimeZoneSettings::new(TimeZoneSettings::DEFAULT_DIRECTORIES, ambient_read);
+                if local {
+                    s.parse_local()
+                } else {
+                    s.parse_posix_tz(v)
+                }
+            }));
+            AMBIENT_READS.with(|r| r.borrow_mut().clear());
+            match (&a, &b) {
+                (Ok(a), Ok(b)) => {
+                    let _ = write!(out, "ambient({v:?},{}) default={:016x} explicit={:016x}", local, crate::prng::fnv(Res::of(a).brief().as_bytes()), crate::prng::fnv(Res::of(b).brief().as_bytes()));
+                }
+                _ => out.push_str("PANIC"),
+            }
             Some((out, None))
         }
         _ => None,
